@@ -878,7 +878,7 @@ func runC03(c *Ctx) *Replay {
 	// sequence is still its wire encoding, every conformant encoding still yields its value
 	if c.R.Chance(1, 3) {
 		sc := Scenario{Kind: "wireheld", Prog: pk.B.Prog.ID, Mask: pk.B.Mask, PeerMask: -1, Type: pk.Type, Value: &v,
-			Order: MapOrder{Strategy: simrt.OrderShuffle, Seed: c.R.Uint64()}, Sched: drawSchedule(c.R, 0, nil), Decoder: []string{"decode", "make"}[c.R.Intn(2)]}
+			Order: MapOrder{Strategy: simrt.OrderShuffle, Seed: c.R.Uint64()}, Sched: drawSchedule(c.R, 0, nil), Decoder: []string{"decode", "make"}[c.R.Intn(2)], Reader: readerKinds[c.R.Intn(len(readerKinds))]}
 		viol := execWireHeld(c.N, &sc)
 		c.Count("evaluations", 1)
 		c.Count("held_sessions", 1)
@@ -984,6 +984,29 @@ func execWireHeld(n *Node, sc *Scenario) *Violation {
 			return mismatch("wireheld|refpeer-value|"+kind+"|"+pathShape(d), fmt.Sprintf("conformant encoding %d of 3 on the caller's ErrorReader gave another value: %s", i+1, d), map[string]string{"op": sc.Decoder, "record_kind": kind})
 		}
 		other()
+	}
+	// the same three encodings behind each other on a stream the caller hands to
+	// DecodeBebop AS IT IS, call after call (no ErrorReader of its own): each call finds a
+	// conformant encoding at the reader's position
+	link2 := simnet.NewLink(stream, s, nil)
+	rw := wrapReader(sc.Reader, link2)
+	for i := 0; i < 3; i++ {
+		got := tt.New()
+		var derr error
+		cr := safeCall(alloc, steps, func() { derr = got.DecodeBebop(rw.r) })
+		if v := callViolation(&cr, sc, b.Schema, "decode"); v != nil {
+			return v
+		}
+		if derr != nil {
+			return mismatch("wireheld|refpeer-rejected|plain-stream|"+kind, fmt.Sprintf("conformant encoding %d of 3 on the caller's %s reader was rejected: %v", i+1, sc.Reader, derr), map[string]string{"op": "decode", "record_kind": kind})
+		}
+		gv, _, err := n.readBack(b, sc.Type, got)
+		if err != nil {
+			return mismatch("bridge|read", err.Error(), nil)
+		}
+		if d := val.Diff(b.Schema, t, want, val.Canon(b.Schema, t, gv)); d != "" {
+			return mismatch("wireheld|refpeer-value|plain-stream|"+kind+"|"+pathShape(d), fmt.Sprintf("conformant encoding %d of 3 on the caller's %s reader gave another value: %s", i+1, sc.Reader, d), map[string]string{"op": "decode", "record_kind": kind})
+		}
 	}
 	return nil
 }
